@@ -127,7 +127,10 @@ type Chain struct {
 	fail     failFn
 
 	Focus         string // "" | "validators": generator bias
-	HasHot        bool   // most transactions come from HotSender (long histories: per-sender state grows)
+	// PersistPlan, if set, gives every replica a state file and its own save schedule: replica i saves in the
+	// Commit of the heights h with (h+Phase) % Period == 0 - what out-of-phase wall-clock timers produce.
+	PersistPlan []persistPlan
+	HasHot      bool // most transactions come from HotSender (long histories: per-sender state grows)
 	HotSender     int
 	PoolKeys      int    // how many universe keys candidate configurations may contain (default nKeyperKeys)
 	CheckReplicas bool // C09 oracle
@@ -154,6 +157,16 @@ func NewChain(g Genesis, replicas int, fail failFn) *Chain {
 	}
 	c.Desc = append(c.Desc, g.String())
 	return c
+}
+
+type persistPlan struct{ Period, Phase int64 }
+
+// EnablePersistence gives the replicas state files under dir and the given save schedules.
+func (c *Chain) EnablePersistence(dir string, plans []persistPlan) {
+	for i, a := range c.Reps {
+		a.Gobpath = fmt.Sprintf("%s/replica-%d.gob", dir, i)
+	}
+	c.PersistPlan = plans
 }
 
 // canonApp returns a copy of the application state with the two fields that
@@ -413,7 +426,15 @@ func (c *Chain) EndBlock() abcitypes.ResponseEndBlock {
 			c.fail("replica-response-diverged", "EndBlock %d differs between replica 0 and %d: %v vs %v\nhistory: %s", c.Height, i, resp0.String(), resp.String(), c.DescString())
 		}
 	}
-	for _, a := range c.Reps {
+	for i, a := range c.Reps {
+		if i < len(c.PersistPlan) {
+			// Commit saves when time.Since(LastSaved) exceeds PersistMinDuration: make it due or not due
+			if pl := c.PersistPlan[i]; (c.Height+pl.Phase)%pl.Period == 0 {
+				a.LastSaved = time.Time{}
+			} else {
+				a.LastSaved = time.Now()
+			}
+		}
 		c.guard("Commit", func() { a.Commit() })
 	}
 	c.compareStates("EndBlock")
